@@ -1200,6 +1200,10 @@ theorem step_inv {s s' : State} (hL : Ledger s) (hA : Aux s) (h : WO s) {l : Lab
   | inboundFailed p =>
     injection hstep with hstep; subst hstep
     exact ⟨hA.disconnectPeer p none, h.preserve_sub (disconnectPeer_sub s p none) (disconnectPeer_transfers s p none)⟩
+  | setStored keys =>
+    injection hstep with hstep; subst hstep
+    exact ⟨hA.of_sublist hA.ctxConn (List.Sublist.refl _) (List.Sublist.refl _) (List.Sublist.refl _) rfl,
+      h.of_same rfl (by owners_le)⟩
 
 theorem inv_reachable {s : State} (h : Reachable s) : Aux s ∧ WO s := by
   induction h with
